@@ -280,51 +280,66 @@ func ruleNG2(c *Ctx) {
 				default:
 					return true
 				}
+				// an accumulation of field F of a DFA state from a constituent state:
+				//   DST.F = DST.F || SRC.F      or      if SRC.F { DST.F = true }
+				type accum struct {
+					field            string
+					dstBase, srcBase ast.Expr
+					at               ast.Stmt
+				}
+				var accs []accum
 				for _, s := range list {
-					as, ok := s.(*ast.AssignStmt)
-					if !ok || len(as.Lhs) != 1 || !isField(info, as.Lhs[0], "lexergen/dfa", "State", "Accept") {
+					switch x := s.(type) {
+					case *ast.AssignStmt:
+						if len(x.Lhs) != 1 || len(x.Rhs) != 1 {
+							continue
+						}
+						fvD, dstBase := selField(info, x.Lhs[0])
+						if fvD == nil || !isField(info, x.Lhs[0], "lexergen/dfa", "State", fvD.Name()) {
+							continue
+						}
+						be, ok := ast.Unparen(x.Rhs[0]).(*ast.BinaryExpr)
+						if !ok || be.Op != token.LOR {
+							continue
+						}
+						var src ast.Expr
+						if sameExpr(be.X, x.Lhs[0]) {
+							src = be.Y
+						} else if sameExpr(be.Y, x.Lhs[0]) {
+							src = be.X
+						} else {
+							continue
+						}
+						if fvS, srcBase := selField(info, src); fvS != nil && fvS.Name() == fvD.Name() {
+							accs = append(accs, accum{fvD.Name(), dstBase, srcBase, s})
+						}
+					case *ast.IfStmt:
+						if x.Init != nil || x.Else != nil || len(x.Body.List) != 1 {
+							continue
+						}
+						fvS, srcBase := selField(info, x.Cond)
+						as, ok := x.Body.List[0].(*ast.AssignStmt)
+						if fvS == nil || !ok || len(as.Lhs) != 1 || len(as.Rhs) != 1 || exprString(as.Rhs[0]) != "true" {
+							continue
+						}
+						fvD, dstBase := selField(info, as.Lhs[0])
+						if fvD != nil && fvD.Name() == fvS.Name() && isField(info, as.Lhs[0], "lexergen/dfa", "State", fvD.Name()) {
+							accs = append(accs, accum{fvD.Name(), dstBase, srcBase, s})
+						}
+					}
+				}
+				for _, a := range accs {
+					if a.field != "Accept" {
 						continue
 					}
-					be, ok := ast.Unparen(as.Rhs[0]).(*ast.BinaryExpr)
-					if !ok || be.Op != token.LOR {
-						continue
-					}
-					// source operand: the one that is not the LHS itself
-					var src ast.Expr
-					if sameExpr(be.X, as.Lhs[0]) {
-						src = be.Y
-					} else if sameExpr(be.Y, as.Lhs[0]) {
-						src = be.X
-					} else {
-						continue
-					}
-					fv, srcBase := selField(info, src)
-					if fv == nil || fv.Name() != "Accept" {
-						continue
-					}
-					dstBase := as.Lhs[0].(*ast.SelectorExpr).X
-					construct := fmt.Sprintf("%s/accumulate(%s <- %s)", funcKey(pk, fd), exprString(dstBase), exprString(srcBase))
+					construct := fmt.Sprintf("%s/accumulate(%s <- %s)", funcKey(pk, fd), exprString(a.dstBase), exprString(a.srcBase))
 					found := false
-					for _, s2 := range list {
-						as2, ok := s2.(*ast.AssignStmt)
-						if !ok || len(as2.Lhs) != 1 {
-							continue
-						}
-						fv2, b2 := selField(info, as2.Lhs[0])
-						if fv2 == nil || fv2.Name() != "NonGreedy" || !sameExpr(b2, dstBase) {
-							continue
-						}
-						be2, ok := ast.Unparen(as2.Rhs[0]).(*ast.BinaryExpr)
-						if !ok || be2.Op != token.LOR {
-							continue
-						}
-						for _, op := range []ast.Expr{be2.X, be2.Y} {
-							if fv3, b3 := selField(info, op); fv3 != nil && fv3.Name() == "NonGreedy" && sameExpr(b3, srcBase) {
-								found = true
-							}
+					for _, b := range accs {
+						if b.field == "NonGreedy" && sameExpr(b.dstBase, a.dstBase) && sameExpr(b.srcBase, a.srcBase) {
+							found = true
 						}
 					}
-					c.check(found, rule, construct, p.Pos(as.Pos()),
+					c.check(found, rule, construct, p.Pos(a.at.Pos()),
 						"NonGreedy is accumulated from the same constituent state next to Accept",
 						"Accept is accumulated from a constituent state but NonGreedy is not: the mark is lost when states are combined")
 				}
@@ -361,6 +376,9 @@ func ruleNG2b(c *Ctx) {
 					if be, ok := ast.Unparen(as.Rhs[0]).(*ast.BinaryExpr); ok && be.Op == token.LOR && (sameExpr(be.X, as.Lhs[0]) || sameExpr(be.Y, as.Lhs[0])) {
 						mono = true
 					}
+					if exprString(as.Rhs[0]) == "true" {
+						mono = true // can only set the mark
+					}
 					if !mono {
 						c.bad(rule, fmt.Sprintf("%s/write(State.%s)", funcKey(pk, fd), fld), p.Pos(as.Pos()),
 							"`%s`: a DFA state's %s is overwritten instead of OR-accumulated from its constituent NFA states; the mark of a rule combined into the state can be lost", nodeText(as), fld)
@@ -395,22 +413,9 @@ func ruleNG3(c *Ctx) {
 			return true
 		}
 		n++
-		guarded := false
-		for q := par[rs]; q != nil; q = par[q] {
-			ifs, ok := q.(*ast.IfStmt)
-			if !ok || !containsNode(ifs.Body, rs) {
-				continue
-			}
-			if be, ok := ast.Unparen(ifs.Cond).(*ast.BinaryExpr); ok && be.Op == token.EQL {
-				if and, ok := ast.Unparen(be.X).(*ast.BinaryExpr); ok && and.Op == token.AND {
-					if v, ok := constInt(ti.Info, be.Y); ok && v == 0 {
-						if _, isConst := usesObj(ti.Info, and.Y).(*types.Const); isConst {
-							guarded = true
-						}
-					}
-				}
-			}
-		}
+		// a path fact `flags & FLAG == 0` (if arm, guard that left, loop condition, through a
+		// boolean local)
+		_, _, guarded := bitClearFact(ti.Info, localDefs(ti.Info, r.fd), pathConds(ti.Info, par, rs))
 		c.check(guarded, rule, "template/PushRune/skip-search", ti.Pos(rs.Pos()),
 			"input is consumed only inside `if flags & _stateNonGreedyAccepting == 0`: a flagged accepting row goes straight to its actions",
 			"a `return _lexerConsume` is reachable for a row whose non-greedy flag is set: the token would not end at the first complete match")
